@@ -5,8 +5,8 @@ from ..extra_c14 import extra_run
 globals().update(
     make(
         pid="C14",
-        props=["JaqalProofs/Props/C14.lean", "JaqalProofs/Props/C14Run.lean", "JaqalProofs/Props/C14Stages.lean"],
-        targets=["JaqalProofs.Props.C14", "JaqalProofs.Props.C14Run", "JaqalProofs.Props.C14Stages"],
+        props=["JaqalProofs/Props/C14.lean", "JaqalProofs/Props/C14Run.lean", "JaqalProofs/Props/C14Stages.lean", "JaqalProofs/Props/C14StagesFull.lean"],
+        targets=["JaqalProofs.Props.C14", "JaqalProofs.Props.C14Run", "JaqalProofs.Props.C14Stages", "JaqalProofs.Props.C14StagesFull"],
         diffs=[("harness.agents.build_diff", 700, 6000), ("harness.agents.c14_inject", 120, 250), ("harness.agents.c14_edge", 2000, 10000), ("harness.agents.c14_scale", 250, 800), ("harness.agents.c14_combo", 3500, 6000), ("harness.agents.c14_traps", 1500, 4000), ("harness.agents.c14_deep", 1500, 2500)],
         extra_run=extra_run,
         trusted=[
